@@ -37,6 +37,18 @@ from oracles import (
 )
 
 
+class NumDigest(Digest):
+    """Digest of returned numbers that also remembers which op each entry came from."""
+
+    def __init__(self, ctx):
+        Digest.__init__(self)
+        self._ctx = ctx
+
+    def add(self, obj):
+        Digest.add(self, obj)
+        self._ctx.numlog.append([self._ctx.i, h64(obj)])
+
+
 class Ctx:
     def __init__(self, prop, cfg, params, streams=None, ops_in=None):
         self.prop = prop
@@ -50,7 +62,8 @@ class Ctx:
         self.faults = {}
         self.probes = {}
         self.digest = Digest()
-        self.numdigest = Digest()  # numbers only (hash-seed comparison)
+        self.numdigest = NumDigest(self)  # numbers only (hash-seed comparison)
+        self.numlog = []  # (op index, hash of the numbers) per judged call
         self.nontrivial = set()
         self.evaluations = 0
         self.sigs = set()
